@@ -18,6 +18,7 @@ Sub-spaces (`sub` of a case):
   cgperiodic coarse-graining a grid that has a periodical axis, through all 4 entry points
   rxspecies  a reaction of a network naming an undeclared species on either side, through every construction route
   mandatory  every key without a documented default removed from minimal and complete dictionaries, nested and file routes
+  dictvalue  unknown values of the enumerated / typed dictionary fields through direct, nested and file routes
   envlen    cell_env of length n-1, n+1, 0 (constructor, setter, dictionaries; list / tuple / ndarray)
   envidx    an environment index >= number of environments at each cell, at every point of use (system
             construction with default state / chemostats, set_default_*, generate_*, kinetics, engine set-up)
@@ -2236,12 +2237,150 @@ def _mandatory(case, out):
     return True
 
 
+# ---- enumerated / typed VALUES of dictionary fields, every route (direct, nested inline, nested as a file) ------------
+
+NONSTR = [3, None, True, ["x"]]
+
+
+def _dv_fields(space):
+    """[(field name, path of the dictionary that holds it, key, valid values, bad values)] on d_script(space).
+    ABSENT = the key is removed (valid for optional keys)."""
+    sp = ["system", "space"]
+    out = []
+    if space == "grid":
+        out.append(("space.type", sp, "type", ["grid", ABSENT],
+                    ["Grid", "GRID", "gird", "grids", "torus", "periodic", "reflecting", "", "space", 3, 0, None, True,
+                     ["grid"]]))
+        for a in "xyz":
+            out.append(("grid.boundary_conditions." + a, sp + ["boundary_conditions"], a,
+                        ["periodical", "reflecting"], BAD_BC + [3, None, True, ["periodical"]]))
+        out.append(("grid.boundary_conditions", sp, "boundary_conditions", [{"y": "periodical"}, {}, ABSENT],
+                    ["periodical", "reflecting", "", 3, True, ["x"], [["x", "periodical"]]]))
+    else:
+        out.append(("space.type", sp, "type", ["graph"],
+                    ["Graph", "GRAPH", "grpah", "graphs", "network", "", 3, None, True, ["graph"]]))
+    out.append(("script.sampling_policy", [], "sampling_policy",
+                ["on_t_sample", "on_iteration", "on_interval", "no_sampling", ABSENT], BAD_POLICY + NONSTR))
+    out.append(("script.init_state_processing", [], "init_state_processing",
+                ["auto", "none", "Poisson", "redist", ABSENT], BAD_ISP + NONSTR))
+    out.append(("script.t_max", [], "t_max", ["default", 1, "1 s", ABSENT],
+                ["Default", "DEFAULT", "defualt", "max", "auto", "", None, ["default"]]))
+    out.append(("script.system", [], "system", [], [3, None, True, [], 2.5]))
+    out.append(("system.network", ["system"], "network", [], [3, None, True, [], 2.5]))
+    out.append(("system.space", ["system"], "space", [None, ABSENT], [3, True, [], 2.5]))
+    bad_units = ["Default", "DEFAULT", "Inherit", "inherited", "defualt", "", "si", "SI", "µm", "none", 3, None, True,
+                 ["default"]]
+    for path, site in _sites("script", d_script(space)):
+        if site in GROUPS and UNITS_G in GROUPS[site]:
+            out.append(("units@" + site, path, "units", ["default", "inherit", USD(), ABSENT], bad_units))
+    return out
+
+
+ABSENT = "<absent>"
+DV_KIND = {(): "script", ("system",): "system", ("system", "network"): "network", ("system", "space"): "space"}
+DV_LOADERS = {"script": load_rdscript, "system": load_rdsystem, "network": load_rdnetwork, "space": load_rdspace}
+DV_EXTERNAL = (("system",), ("system", "network"), ("system", "space"))
+
+
+def _dv_kind(path):
+    path = tuple(path)
+    if path in DV_KIND:
+        return DV_KIND[path]
+    if len(path) == 4 and path[:3] == ("system", "network", "species"):
+        return "species"
+    if len(path) == 4 and path[:3] == ("system", "network", "reactions"):
+        return "reaction"
+    if len(path) == 4 and path[:3] == ("system", "space", "nodes"):
+        return "node"
+    if len(path) == 4 and path[:3] == ("system", "space", "edges"):
+        return "edge"
+    return None
+
+
+def _dv_routes(holder):
+    """[(route name, level path, external path or None, as file)] for a defect inside the dictionary at `holder`."""
+    holder = tuple(holder)
+    routes = []
+    for ln in range(len(holder) + 1):
+        lp = holder[:ln]
+        kind = _dv_kind(lp)
+        if kind is None:
+            continue
+        routes.append(("%s_from_dict" % kind, lp, None, False))
+        if kind in DV_LOADERS:
+            routes.append(("load_rd%s(json file)" % kind, lp, None, True))
+        for ext in DV_EXTERNAL:
+            if len(ext) > len(lp) and ext[:len(lp)] == lp and holder[:len(ext)] == ext:
+                routes.append(("%s_from_dict:%s-as-file-path" % (kind, ext[-1]), lp, ext, False))
+    return routes
+
+
+def _dv_call(S, route):
+    """Runs one route on the (possibly defective) script dictionary S."""
+    name, lp, ext, as_file = route
+    kind = _dv_kind(lp)
+    S = copy.deepcopy(S)
+    with tempfile.TemporaryDirectory(prefix="c20_") as tmp:
+        if ext is not None:
+            holder = _node(S, ext[:-1])
+            path = os.path.join(tmp, "%s.json" % ext[-1])
+            with open(path, "w", encoding="utf-8") as f:
+                json.dump(holder[ext[-1]], f)
+            holder[ext[-1]] = path
+        d = _node(S, lp)
+        if as_file:
+            path = os.path.join(tmp, "top.json")
+            with open(path, "w", encoding="utf-8") as f:
+                json.dump(d, f)
+            return DV_LOADERS[kind](path)
+        return READERS[kind](d)
+
+
+def _dictvalue(case, out):
+    space, fname = case["space"], case["field"]
+    only = case.get("only")
+    spec = [f for f in _dv_fields(space) if f[0] == fname and f[1] == case["path"]][0]
+    _name, holder, key, valids, bads = spec
+    base = d_script(space)
+    routes = _dv_routes(holder)
+
+    def with_value(v):
+        S = copy.deepcopy(base)
+        nd = _node(S, holder)
+        if isinstance(v, str) and v == ABSENT:
+            nd.pop(key, None)
+        else:
+            nd[key] = copy.deepcopy(v)
+        return S
+    where = "/".join(str(p) for p in holder) or "(top level)"
+    k = 0
+    for route in routes:
+        rkey = "%s:dict-value:%s:%s" % (P, fname, route[0])
+        accept(out, "dict-value", rkey, "%s on the complete script dictionary over a %s" % (route[0], space),
+               lambda: _dv_call(base, route))
+        for v in valids:
+            accept(out, "dict-value", rkey, "%s with %r: %r in the dictionary at %s" % (route[0], key, v, where),
+                   lambda: _dv_call(with_value(v), route))
+        for bad in bads:
+            item = {"route": route[0], "value": bad}
+            if not _selected(only, item):
+                continue
+            if k % 6 == 0 and valids:
+                accept(out, "dict-value", rkey, "%s with a valid %r (replayed between invalid inputs)" % (route[0], key),
+                       lambda: _dv_call(with_value(valids[(k // 6) % len(valids)]), route))
+            k += 1
+            reject(out, "dict-value", rkey,
+                   "%s with %r: %r in the dictionary at %s of a script over a %s" % (route[0], key, bad, where, space),
+                   lambda: _dv_call(with_value(bad), route), item)
+    return True
+
+
 # =====================================================================================================
 # dispatch, enumeration
 # =====================================================================================================
 
 SUBS = {"keys": _keys, "dim": _dim, "usym": _usym, "gridsize": _gridsize, "envlen": _envlen, "envidx": _envidx,
-        "enum": _enum, "edgeidx": _edgeidx, "cgperiodic": _cgperiodic, "rxspecies": _rxspecies, "mandatory": _mandatory, "pos": _pos, "species": _species, "reaction": _reaction, "cgmap": _cgmap}
+        "enum": _enum, "edgeidx": _edgeidx, "cgperiodic": _cgperiodic, "rxspecies": _rxspecies, "mandatory": _mandatory, "dictvalue": _dictvalue, "pos": _pos, "species": _species, "reaction": _reaction, "cgmap": _cgmap}
 
 
 def _run_case(case):
@@ -2384,6 +2523,13 @@ def _spaces(tier):
     for route in RX_ROUTES:
         for form in ("string", "dict"):
             small.append({"sub": "rxspecies", "route": route, "form": form})
+    for space in ("grid", "graph"):
+        for f in _dv_fields(space):
+            if not thorough and f[0].startswith("units@") and f[1] and f[1][-1] not in (0, "system", "network", "space"):
+                continue        # quick: the "units" word at the first species / reaction / node / edge only
+            if not thorough and space == "graph" and not (f[0].startswith("units@") or f[0] == "space.type"):
+                continue        # quick: the script / system level fields over the grid base only
+            small.append({"sub": "dictvalue", "space": space, "field": f[0], "path": f[1]})
     for base in MAND_BASES:
         for top in MAND_TOPS:
             for route in ("from_dict", "load"):
@@ -2402,7 +2548,11 @@ def _spaces(tier):
                "alone / first / second reaction) x RDNetwork, network / system / script dictionaries and JSON files; "
                "every documented mandatory key (script system, t_sample; system network; network species; species "
                "label; reaction equation; unit array value, units) removed under all its spellings from bare / minimal "
-               "/ alias-spelt / complete dictionaries, at every nesting level, through *_from_dict and load_* files"
+               "/ alias-spelt / complete dictionaries, at every nesting level, through *_from_dict and load_* files; "
+               "unknown VALUES of the enumerated / typed dictionary fields (space type, boundary condition, sampling "
+               "policy, init_state_processing, t_max word, units word at every level, network / space / system given as "
+               "a number ...: wrong case, misspelling, empty, other word, number, None, list) through every enclosing "
+               "*_from_dict, load_* file and nested-as-file-path route"
                % (BAD_SIZES,), small, 2))
     return sp
 
